@@ -27,8 +27,8 @@ Definition usei : denom := 2.
 Definition uusd : denom := 3.
 Definition DENOMS : list denom := [0; 1; 2; 3].
 (** Validators that exist on the chain. *)
-Definition VALS : list val := [0; 1; 2; 3; 4; 5; 6; 7].
-Definition is_val (v : val) : bool := v <? 8.
+Definition VALS : list val := [0; 1; 2; 3; 4; 5; 6; 7; 8; 9; 10; 11].
+Definition is_val (v : val) : bool := v <? 12.
 
 (** ** Messages *)
 Inductive hook := HkUnbond | HkConvert | HkJunk.
